@@ -3,21 +3,28 @@
 #include <cmath>
 #include "votca/tools/cubicspline.h"
 using namespace votca::tools;
-int main() {
+int main(int argc, char **argv) {
+  bool periodic = !(argc > 1 && argv[1][0] == 'n');
   const int N = 6;
   double xs[N] = {0, 1, 2.5, 3, 4.5, 6};
   Eigen::VectorXd x(N), y(N);
   for (int i = 0; i < N; ++i) { x(i) = xs[i]; y(i) = std::sin(2 * M_PI * xs[i] / 6.0); }
   y(N - 1) = y(0);
   CubicSpline cs;
-  cs.setBC(Spline::splinePeriodic);
+  cs.setBC(periodic ? Spline::splinePeriodic : Spline::splineNormal);
   cs.Interpolate(x, y);
   double e = 1e-9;
   double s0 = cs.CalculateDerivative(x(0)), sN = cs.CalculateDerivative(x(N - 1) - e);
   double v0 = cs.Calculate(x(0)), vN = cs.Calculate(x(N - 1) - e);
   double c0 = (cs.CalculateDerivative(x(0) + 1e-6) - s0) / 1e-6, cN = (cs.CalculateDerivative(x(N - 1) - e) - cs.CalculateDerivative(x(N - 1) - 1e-6)) / 1e-6;
   printf("value  %.9g %.9g\nslope  %.9g %.9g\ncurv   %.6g %.6g\n", v0, vN, s0, sN, c0, cN);
-  bool bad = !(std::fabs(s0 - sN) < 1e-5) || !(std::fabs(v0 - vN) < 1e-6) || !(std::fabs(c0 - cN) < 1e-3);
-  printf(bad ? "MISMATCH periodic ends differ (or are not finite)\n" : "OK\n");
+  bool bad = periodic && (!(std::fabs(s0 - sN) < 1e-5) || !(std::fabs(v0 - vN) < 1e-6) || !(std::fabs(c0 - cN) < 1e-3));
+  for (int k = 1; k < N - 1; ++k) {   // first derivative continuous at every inner knot
+    double dl = cs.CalculateDerivative(x(k) - 1e-9), dr = cs.CalculateDerivative(x(k) + 1e-9);
+    printf("knot %d slope left %.9g right %.9g\n", k, dl, dr);
+    if (!(std::fabs(dl - dr) < 1e-5)) bad = true;
+  }
+  if (!periodic && (std::fabs(cs.CalculateDerivative(x(0) + 1e-6) - cs.CalculateDerivative(x(0))) > 1e-4)) { printf("end curvature not zero\n"); bad = true; }
+  printf(bad ? "MISMATCH\n" : "OK\n");
   return bad ? 1 : 0;
 }
